@@ -515,11 +515,13 @@ def modelsEmpty (s : PMM V) : Option (List Nat) → Bool
   | none => s.nModels == 0
   | some ms => ms.isEmpty
 
-/-- the boolean mask of the models the parameter is mapped to -/
+/-- is model `i` one of the models the parameter is mapped to (`models = none`: all) -/
+def isMapped : Option (List Nat) → Nat → Bool
+  | none, _ => true
+  | some ms, i => ms.contains i
+
 def modelMask (s : PMM V) (models : Option (List Nat)) : List Bool :=
-  (List.range s.nModels).map (fun i => match models with
-    | none => true
-    | some ms => ms.contains i)
+  (List.range s.nModels).map (isMapped models)
 
 /-- `map_param(param, models, model_param_names)` (`parameters.py:1994-2069`, after the fix).
 `models = none` is Python `None` (all models); otherwise a list of model positions, a position
